@@ -589,6 +589,16 @@ func VerifyLinkSignatureThesholds(layout Layout,
 					continue
 				}
 
+				// The link gets counted under signerKeyID. Make sure that this
+				// is the ID of the certificate's key, which verifies the
+				// signature below, and not merely an ID claimed in a signature.
+				// Otherwise one functionary could be counted more than once.
+				if cert.KeyID != signerKeyID {
+					stepErr = fmt.Errorf("signature key id '%s' does not match"+
+						" key id '%s' of its certificate", signerKeyID, cert.KeyID)
+					continue
+				}
+
 				// test certificate against the step's constraints to make sure it's a valid functionary
 				err = step.CheckCertConstraints(cert, layout.RootCAIDs(), rootCertPool, intermediateCertPool)
 				if err != nil {
